@@ -532,6 +532,7 @@ package termincommittee
 //@   ensures [sound.signed] result == nil ==> VerifiedMsg(tic.keyManager, vcm.SignedHeader().BlockHeight(), vcm.SignedHeader().Raw(), vcm.Sender().MemberId(), vcm.Sender().Signature())
 //@   ensures [sound.signed-type] result == nil ==> vcm.SignedHeader().MessageType() == protocol.LEAN_HELIX_VIEW_CHANGE
 //@   ensures [sound.proof] result == nil ==> ProofOK(tic, vcm.SignedHeader().PreparedProof(), tic.State.height, vcm.SignedHeader().View())
+//@   ensures [sound.an-accepted-vote-carries-a-good-proof-or-none] result == nil && HasProof(vcm) ==> ProofAcceptable(tic, vcm.SignedHeader().PreparedProof(), tic.State.height, vcm.SignedHeader().View())
 //@   assert before call ValidatePreparedProof [committee-argument-is-term-committee] $committeeMembers == tic.committeeMembers && $keyManager == tic.keyManager
 
 // the vote with the highest prepared-proof view (sort.Slice is modelled by A-SORT: permutation, no inversion w.r.t. less)
@@ -601,6 +602,8 @@ package termincommittee
 //@   | && (vcm.content.SignedHeader().PreparedProof() != nil && len(vcm.content.SignedHeader().PreparedProof().Raw()) > 0 ==>
 //@   |      vcm.block != nil && vcm.block.Height() == vcm.content.SignedHeader().BlockHeight() && Commits(tic.blockUtils, vcm.content.SignedHeader().BlockHeight(), vcm.block, vcm.content.SignedHeader().PreparedProof().PreprepareBlockRef().BlockHash()))
 //@   | && (vcm.block != nil ==> vcm.content.SignedHeader().PreparedProof() != nil && len(vcm.content.SignedHeader().PreparedProof().Raw()) > 0)
+//@   | && vcm.content.SignedHeader().MessageType() == protocol.LEAN_HELIX_VIEW_CHANGE && CanonVC(vcm)
+//@   | && (HasProof(vcm.content) ==> ProofAcceptable(tic, vcm.content.SignedHeader().PreparedProof(), vcm.content.SignedHeader().BlockHeight(), vcm.content.SignedHeader().View()))
 
 //@ iface interfaces.Storage.StoreViewChange
 //@   requires [O8.4.verified] vcm != nil && vcm.content != nil && VerifiedMsg(caller.keyManager, vcm.content.SignedHeader().BlockHeight(), vcm.content.SignedHeader().Raw(), vcm.content.Sender().MemberId(), vcm.content.Sender().Signature())
@@ -615,6 +618,7 @@ package termincommittee
 //@   requires [O8.4.block-comes-with-its-proof] vcm.content.Sender().MemberId() == caller.myMemberId || (vcm.block != nil ==> vcm.content.SignedHeader().PreparedProof() != nil && len(vcm.content.SignedHeader().PreparedProof().Raw()) > 0)
 // a counted vote is nested in this node's NEW_VIEW by re-encoding its fields: only a canonical header keeps its signature valid there (C11, defect F14)
 //@   requires [O11.3.a-counted-vote-is-canonical] CanonVC(vcm)
+//@   requires [O11.3.a-counted-vote-carries-a-good-proof-or-none] HasProof(vcm.content) ==> ProofAcceptable(caller, vcm.content.SignedHeader().PreparedProof(), vcm.content.SignedHeader().BlockHeight(), vcm.content.SignedHeader().View())
 //@   modifies ghost:vcver, ghost:countedVC
 //@   ensures vcver == old(vcver) + 1
 //@   ensures [counted] countedVC[vcm]
@@ -690,6 +694,7 @@ package termincommittee
 //@   assert before call SendConsensusMessage [O10.what-goes-to-the-transport-is-the-conversion-of-this-vote-addressed-to-that-member] RawOf($message, message) && len($recipients) == 1 && $recipients[0] == targetMemberId
 //@   requires [O10.6.only-votes-are-unicast] istype(message, *interfaces.ViewChangeMessage)
 //@   requires [C11:O11.1.an-emitted-vote-is-one-its-leader-accepts] EmittedVote(tic, dyn(message, *interfaces.ViewChangeMessage))
+//@   requires [C11:O11.1.the-proof-assembled-into-an-emitted-vote-is-one-its-leader-accepts] EmittedVoteProof(tic, dyn(message, *interfaces.ViewChangeMessage))
 //@   requires [O10.6.vote-for-the-view-just-entered] dyn(message, *interfaces.ViewChangeMessage).content.SignedHeader().View() == tic.State.view
 //@   requires [O10.6.vote-views-strictly-increase] dyn(message, *interfaces.ViewChangeMessage).content.SignedHeader().View() > lastVC
 //@   requires [O10.6.addressed-to-the-leader-of-that-view] targetMemberId == LeaderOf(tic.committeeMembers, dyn(message, *interfaces.ViewChangeMessage).content.SignedHeader().View())
